@@ -3,7 +3,7 @@
 usage: extra_benign.py <rust2coq.py> <workdir>"""
 import sys, os, json, shutil, subprocess
 tr, work = sys.argv[1:3]
-REPO0 = '/tmp/ag/tol/repo0'
+REPO0 = '/tmp/ag/tol2/repo0'
 DE, SER, PDE, PSER, UDE, MUT, IMM, IO = ('src/io/slippi/de.rs', 'src/io/slippi/ser.rs', 'src/io/peppi/de.rs', 'src/io/peppi/ser.rs', 'src/io/ubjson/de.rs',
                                          'src/frame/mutable.rs', 'src/frame/immutable/mod.rs', 'src/io/mod.rs')
 def all_(old, new):
